@@ -454,6 +454,42 @@ func (e *Exec) ghostCall(f *frame, in ssa.Instruction, fn *ssa.Function, args []
 		return B(implies(args[0].T, args[1].T))
 	case "iff":
 		return B(eq(args[0].T, args[1].T))
+	case "forall2", "exists2":
+		a := args[0]
+		var cfn *ssa.Function
+		var binds []Val
+		if a.Clo != nil {
+			cfn, binds = a.Clo.fn, a.Clo.bindings
+		} else if a.Fn != nil {
+			cfn = a.Fn
+		} else {
+			panic("quantifier needs a function literal")
+		}
+		e.quantN++
+		var bvs []Val
+		var decl []string
+		for _, p := range cfn.Params {
+			qn := fmt.Sprintf("q%d_%s", e.quantN, sanitize(p.Name()))
+			bvs = append(bvs, Val{T: qn, Typ: p.Type()})
+			decl = append(decl, "("+qn+" "+e.s.sortOf(p.Type())+")")
+		}
+		e.pure++
+		nf := e.newFrame(cfn, f.path)
+		for i, fv := range cfn.FreeVars {
+			b := binds[i]
+			b.Typ = fv.Type()
+			nf.vals[fv] = b
+		}
+		e.inlineStk = append(e.inlineStk, cfn)
+		res, _, _ := e.run(nf, bvs, h, "true")
+		e.inlineStk = e.inlineStk[:len(e.inlineStk)-1]
+		e.pure--
+		e.quantN--
+		q := "forall"
+		if name == "exists2" {
+			q = "exists"
+		}
+		return B(fmt.Sprintf("(%s (%s) %s)", q, strings.Join(decl, " "), res[0].T))
 	case "forall", "exists", "forallIdx", "existsIdx":
 		a := args[0]
 		var cfn *ssa.Function
@@ -536,6 +572,12 @@ func (e *Exec) ghostCall(f *frame, in ssa.Instruction, fn *ssa.Function, args []
 		return Val{T: "((_ int2bv 64) " + i + ")", I: i, Typ: rt}, h, g
 	case "strReplaceAll":
 		return B("(str.replace_all " + args[0].T + " " + args[1].T + " " + args[2].T + ")")
+	case "strTrimPrefix":
+		s, p := args[0].T, args[1].T
+		return B(fmt.Sprintf("(ite (str.prefixof %s %s) (str.substr %s (str.len %s) (- (str.len %s) (str.len %s))) %s)", p, s, s, p, s, p, s))
+	case "strTrimSuffix":
+		s, p := args[0].T, args[1].T
+		return B(fmt.Sprintf("(ite (str.suffixof %s %s) (str.substr %s 0 (- (str.len %s) (str.len %s))) %s)", p, s, s, s, p, s))
 	case "strInRe":
 		// second argument: constant regular expression in SMT-LIB syntax
 		c, ok := in.(*ssa.Call).Call.Args[1].(*ssa.Const)
@@ -556,6 +598,22 @@ func (e *Exec) ghostCall(f *frame, in ssa.Instruction, fn *ssa.Function, args []
 		return B(e.heldTerm(h, args[0]))
 	case "fresh":
 		return B("true")
+	case "fmtLiteralAfterFirstVerb":
+		// literal text between the first verb (two characters, e.g. %s) and the second verb
+		t := args[0].T
+		if strings.HasPrefix(t, "\"") && strings.HasSuffix(t, "\"") {
+			if b, exact := smtStringToBytes(t); exact {
+				s := string(b)
+				if i := strings.IndexByte(s, '%'); i >= 0 && i+2 <= len(s) {
+					s = s[i+2:]
+					if j := strings.IndexByte(s, '%'); j >= 0 {
+						s = s[:j]
+					}
+					return B(smtStringLit(s))
+				}
+			}
+		}
+		return B("\"\"")
 	case "fmtLiteralPrefix":
 		// literal text of a constant format string before its first verb
 		t := args[0].T
@@ -780,6 +838,7 @@ func (e *Exec) contractCall(f *frame, in ssa.Instruction, sp *FuncSpec, key stri
 		}
 		e.reassertPrivate(pre, post)
 	}
+	e.applyGhostSets(sp, full, post, g)
 	gout := g
 	for _, c := range sp.Clauses {
 		if c.Kind != KEnsures {
@@ -996,4 +1055,27 @@ func (e *Exec) evalSpecVal(sf *ssa.Function, args []Val, h *Heap) Val {
 	res, _, _ := e.run(nf, args, h, "true")
 	e.inlineStk = e.inlineStk[:len(e.inlineStk)-1]
 	return res[0]
+}
+
+// applyGhostSets performs the ghost assignments a contract attaches to the function's return.
+func (e *Exec) applyGhostSets(sp *FuncSpec, full []Val, post *Heap, g string) {
+	for _, c := range sp.Clauses {
+		if c.Kind != KGhostSet {
+			continue
+		}
+		pkg := e.eng.ld.ssaPkg(sp.PkgPath)
+		valFn := pkg.Func(c.GoName)
+		condFn := pkg.Func(c.GoName + "_cond")
+		varFn := pkg.Func(c.GoName + "_var")
+		if valFn == nil || condFn == nil || varFn == nil {
+			panic("ghostset functions missing for " + c.Label)
+		}
+		addr := e.evalSpecVal(varFn, nil, post)
+		a := e.addrOf(addr)
+		cond := e.evalSpec(condFn, full, post, nil)
+		val := e.evalSpecVal(valFn, full, post)
+		old := e.load(post, a)
+		nv := e.named("gs", a.Typ, ite(cond, val.T, old))
+		e.storeAt(post, a, nv)
+	}
 }
